@@ -143,7 +143,7 @@ CaseResult run_static(const RunCtx &ctx, TapeReader &t, unsigned size_hint) {
     if (idx.height() >= 3) res.label("ge3_levels");
     if (meta.top_reached) res.label("has_max_minus_1");
     if (meta.starts_lowest) res.label("starts_at_lowest");
-    if (meta.excluded_known) res.label("excluded_known_KF1_double_dup_run_capped");
+    if (meta.excluded_known) res.label("excluded_known_KF4_run_of_2^24_or_more_capped");
 
     bool nt_gap_after_dup = false, nt_near_seam = false, nt_far = false, nt_c07 = false;
     uint64_t nq = 0;
